@@ -119,6 +119,60 @@ def _agreement_float(ctx, n):
                      "directly (implementation only)" % len(lines))
 
 
+CONV_FACTS = [("f128FromPrec", "List Nat"), ("f128FromTextFormat", "String"), ("f128FromExtraDigits", "Nat"),
+              ("f128FromUnsignedKinds", "List String"), ("f128FromFloatKinds", "List String"), ("f128AsPrec", "List Nat"),
+              ("f128AsFloatKinds", "List String"), ("f64FromFloatKinds", "List String"), ("f64AsFloatKinds", "List String"),
+              ("f64AsFloatParsesAtRequestedSize", "Bool")]
+
+
+def _conv_tie(ctx):
+    """Regenerated tie for the conversion constants the model copies by hand (third tie, next to Facts.fixedConfigs and the
+    SSA translation): go/cmd/c03facts reads the From / As code of the working tree with go/parser and rewrites
+    lean/Generated/C03Conv.lean - inside the Lean lock, in place of factgen for this second build - and Props/C03Conv.lean
+    proves every fact that was found equal to what the executed model definitions are written with.  Fail-safe: a fact
+    that is not found in the expected syntactic shape (or a generator that does not run) is `none`, its theorem vacuous;
+    the evidence lists it under conv_facts_absent."""
+    import os
+    import re
+    from vlib.core import GO, LEAN, env_go, sh
+    dst = os.path.join(LEAN, "Generated", "C03Conv.lean")
+
+    def gen():
+        outp = os.path.join(ctx.work, "C03Conv.lean")
+        if os.path.exists(outp):
+            os.remove(outp)
+        rc, out = sh(["go", "run", "-modfile=" + ctx._gomod(), "./cmd/c03facts", ctx.repo, outp], cwd=GO, env=env_go(),
+                     timeout=300)
+        if rc != 0 or not os.path.exists(outp):
+            ctx.extra["conv_facts_generator"] = "did not run: " + out[-300:]
+            text = ("/-! GENERATED fallback (go/cmd/c03facts did not run): every fact absent. -/\nnamespace ConvFacts\n" +
+                    "".join("def %s : Option (%s) := none\n" % nt for nt in CONV_FACTS) + "end ConvFacts\n")
+        else:
+            text = open(outp).read()
+        if os.path.exists(dst):
+            os.remove(dst)
+        with open(dst + ".tmp", "w") as f:
+            f.write(text)
+        os.replace(dst + ".tmp", dst)
+        facts = dict(re.findall(r"^def (\w+) : Option \(.*?\) := (.*)$", text, re.M))
+        ctx.extra["conv_facts"] = facts
+        ctx.extra["conv_facts_absent"] = sorted(n for n, _ in CONV_FACTS if facts.get(n, "none") == "none")
+
+    orig = ctx._factgen
+    ctx._factgen = gen
+    try:
+        ctx.lean(props=["Props.C03Conv"], drivers=[], facts=True)
+    finally:
+        ctx._factgen = orig
+    absent = ctx.extra.get("conv_facts_absent", [n for n, _ in CONV_FACTS])
+    ctx.rules.append("conversion-constant tie: %d of %d facts of the From/As source regenerated (Generated/C03Conv.lean) and "
+                     "proved equal to the model's constants (Props.C03Conv)%s" % (
+                         len(CONV_FACTS) - len(absent), len(CONV_FACTS),
+                         "; ABSENT (theorem vacuous in this run): " + ", ".join(absent) if absent else ""))
+    if absent:
+        print("NOTE (conversion-constant tie): not found in the expected shape, theorem vacuous in this run: " + ", ".join(absent))
+
+
 def _tag(line, out):
     w = line.split(" ")
     if len(w) < 3:
@@ -176,6 +230,15 @@ def run(ctx):
         "the hand-written model through toInt (Props/C03Gen.lean; Mul by its specification under the hypotheses of the "
         "property); From/As (reflect kind switch) and the text functions are outside the fragment; trusted here: "
         "golang.org/x/tools/go/ssa and the instruction-by-instruction translation in gossa/main.go")
+    ctx.modelled.append(
+        "conversion-constant tie: SetPrec(p) of f128.From / f128.As, the format and digit count of Text('f', D+1) in "
+        "f128.From, the reflect kinds of the unsigned case of f128.From and of the float case of all four generic "
+        "From/As functions, and the bit size f64.asFloat parses at are read from the working tree with go/parser "
+        "(go/cmd/c03facts -> Generated/C03Conv.lean, rewritten on every run) and proved to be the constants the executed "
+        "model definitions are written with (Props/C03Conv.lean: f128_as_precision_tie, f128_from_precision_tie, "
+        "f128_from_text_tie, f128_from_unsigned_kinds_tie, float_kinds_tie, f64_as_float_size_tie); a fact not found in the "
+        "expected shape is `none` and its theorem vacuous (listed in conv_facts_absent)")
+    _conv_tie(ctx)
     from vlib import gentie
     gentie.run(ctx, target="f64", generated="SSA_F64.lean", module="Props.C03Gen", key="f64", namespace="C03Gen")
     ctx.modelled.append(
